@@ -440,6 +440,23 @@ def payload_len_source(term):
     return t
 
 
+def is_payload_len(term, slice_n, hs):
+    """does term contain the payload length of the frame slice (parameter number slice_n): slice.len() - HEADER_SIZE, or the
+    length of the tail of slice.split_at[_mut](HEADER_SIZE) / of slice[HEADER_SIZE..]"""
+    def sub(y):
+        return (y and y[0] == 'bin' and y[1] in ('SubWithOverflow', 'Sub', 'SubUnchecked') and const_val(y[3]) == hs
+                and find_terms(y[2], lambda z: is_call(z, name='len') and arg_root(z[2][0]) == slice_n))
+    def tail(y):
+        if not is_call(y, name='len'):
+            return False
+        a = strip_refs(y[2][0])
+        if a and a[0] == 'field' and str(a[2]) in ('1', '.1'):
+            c = strip_refs(a[1])
+            return bool(is_call(c) and c[3] in ('split_at_mut', 'split_at') and arg_root(c[2][0]) == slice_n and const_val(c[2][1]) == hs)
+        return False
+    return bool(find_terms(term, lambda y: sub(y) or tail(y)))
+
+
 # ---------------------------------------------------------------- parameters by type / role instead of position
 def params_of_type(body, pat):
     """argument numbers (1-based) of body whose declared type matches regex pat"""
@@ -565,7 +582,7 @@ def encode_body_rows(tonic):
             kind = 'trailers'
         elif val[0] == 'agg' and val[1].get('variant') == 'Pending':
             kind = 'pending'
-        elif term_contains(val, lambda x: x and x[0] == 'agg' and x[1].get('variant') == 'Err') or is_call(strip_refs(val), name='from_residual'):
+        elif term_contains(val, lambda x: x and x[0] == 'agg' and x[1].get('variant') == 'Err') or term_contains(val, lambda x: is_call(x, name='from_residual')):
             kind = 'err'
         elif term_contains(val, lambda x: x and x[0] == 'agg' and x[1].get('variant') == 'None') and not term_contains(val, lambda x: x and x[0] == 'agg' and x[1].get('variant') in ('Ok', 'Err')):
             kind = 'none'
@@ -726,7 +743,12 @@ def loc_through_call(caller, call_term, callee_loc):
     # an aggregate built at the call site: pick the field operand
     if a and a[0] == 'agg' and fields and fields[0] in (a[1].get('fields') or []):
         return ('term', a[2][a[1]['fields'].index(fields[0])])
-    return ('term', a) if not fields else None
+    if not fields:
+        return ('term', a)
+    # some other place expression (e.g. a field of a pin-projection): the callee-side fields are read off it
+    for f in fields:
+        a = ('field', a, f)
+    return ('term', a)
 
 
 def whole_buffer_takes(body):
@@ -744,3 +766,94 @@ def whole_buffer_takes(body):
         if 'BytesMut' in (t.get('fn') or '') and len(t['args']) == 1:
             out.append((bb, t, True))
     return out
+
+
+def agg_field_operand(body, a, ops, name):
+    """the operand stored in field `name` of an aggregate — directly, or one level down when the fields were bundled into a
+    sub-struct that is built in the same body and stored in one of the aggregate's fields.  Returns (operand, where) or None"""
+    if name in (a.get('fields') or []):
+        return ops[a['fields'].index(name)], 'direct'
+    for o in ops:
+        rl = mirlib.root_local(body, o)
+        if rl is None:
+            continue
+        for bb, i, p, a2, ops2 in mirlib.aggregates(body):
+            if p['l'] == rl and not p.get('pr') and a2.get('kind') == 'adt' and name in (a2.get('fields') or []):
+                return ops2[a2['fields'].index(name)], 'via %s' % (a2.get('adt') or '').split('::')[-1]
+    return None
+
+
+def end_of_source_rows(tonic, pf, rows):
+    """what EncodeBody does when its message source is exhausted, as rows dict(role, ended, kind 'Some'|'None'|other, sets, value,
+    site, form): read from EncodeState::trailers() when that method exists (form 'method'), else from the paths of poll_frame on
+    which the source returned None (form 'inline' — the method was folded into poll_frame or replaced by a new helper)"""
+    def flag_place(p):
+        return mirlib.place_fields(p)[-1:] == ['is_end_stream']
+    try:
+        tr = tonic.body('codec::encode::EncodeState::trailers')
+    except CheckError:
+        tr = None
+    out = []
+    if tr is not None:
+        meta = {}
+        for cons, path in mirlib.path_rows(tr, meta=meta):
+            v = cons_view(cons, meta)
+            role = view_get(v, lambda k: k.startswith('discr(') and k.rstrip(')').endswith('.role'))
+            ended = view_get(v, lambda k: k.endswith('is_end_stream') and 'discr(' not in k)
+            ended = None if ended is None else bool(ended)
+            val = mirlib.simplify(tr.ret_on_path(path))
+            kind = val[1].get('variant') if val[0] == 'agg' else '?'
+            sets = [const_val(x[3]) for x in tr.writes_on_path(path, flag_place)]
+            out.append(dict(role=role, ended=ended, kind=kind, sets=sets, value=val, site=site(tr, path[-1]), form='method'))
+        return tr, out
+    for r in rows:
+        if r['item'] != 'None':
+            continue
+        # the flag was clear at entry (poll_frame tests it first); a second, contradicting read marks the "already ended" arm
+        again = any(k.endswith('is_end_stream') and 'discr(' not in k and (op in ('notin', '!=') and (tuple(v) if isinstance(v, (list, tuple)) else v) in ((0,), 0, False) or (op == '==' and v not in (0, False)))
+                    for k, op, v in r['cons'])
+        kind = {'trailers': 'Some', 'none': 'None'}.get(r['kind'], r['kind'])
+        out.append(dict(role=r['role'], ended=bool(again), kind=kind, sets=r['sets_end'], value=r['value'], site=site(pf, r['path'][-1]), form='inline'))
+    return None, out
+
+
+def end_status_source(tonic, val):
+    """(ok, shown): the trailers of the end-of-source frame are to_header_map(error.take() | Status::ok("") | error.take().unwrap_or_else(|| Status::ok("")))"""
+    thm = find_terms(val, lambda x: is_call(x, name='to_header_map'))
+    src = strip_refs(thm[0][2][0]) if thm else ('x',)
+    ok_take = term_contains(src, lambda x: is_call(x, name='take') and mentions_field(x, 'error'))
+    ok_ok = is_call(src, pat='Status::ok')
+    if is_call(src) and src[3] in ('unwrap_or_else', 'unwrap_or', 'unwrap_or_default') and len(src[2]) >= 1:
+        dflt = strip_refs(src[2][1]) if len(src[2]) > 1 else ('x',)
+        if dflt[0] == 'agg' and 'def' in dflt[1]:
+            cb_ = tonic.body(re.compile('^' + re.escape(dflt[1]['def']) + '$'))
+            ok_ok = all(is_call(strip_refs(t_), pat='Status::ok') for _, t_ in mirlib.returned_terms(cb_))
+        else:
+            ok_ok = is_call(dflt, pat='Status::ok')
+        ok_take = ok_take and ok_ok
+    return bool(thm) and bool(ok_take or ok_ok), show(src)[:100]
+
+
+def check_end_of_source(R, rule, tonic, pf, rows):
+    """the decision table at the end of the message source, evaluated under `rule`"""
+    tr, erows = end_of_source_rows(tonic, pf, rows)
+    if tr is not None:
+        R.saw(tr)
+    seen_rows = set()
+    for r in erows:
+        role, ended, kind, sets, st = r['role'], r['ended'], r['kind'], r['sets'], r['site']
+        seen_rows.add((role, ended, kind))
+        if kind == 'Some':
+            R.check(role == 'Server' and ended is False, rule, 'trailers():server-first', st, 'Some(trailers) only in the server role with the flag clear: role %r, ended %r' % (role, ended))
+            R.check(sets == [True], rule, 'trailers():sets-end', st, 'is_end_stream := true on the path returning Some(trailers): %r' % sets)
+            ok, shown = end_status_source(tonic, r['value'])
+            R.check(ok, rule, 'trailers():status-source', st, 'trailers = to_header_map(error.take() or Status::ok): %s' % shown)
+        else:
+            R.check(kind == 'None' and not (role == 'Server' and ended is False), rule, 'trailers():%s' % ('client' if role == 'Client' else 'server-ended'), st, 'role %r, ended %r -> %s' % (role, ended, kind))
+            R.check(not sets, rule, 'trailers():none-leaves-flag', st, 'no flag write on a None path: %r' % sets)
+    where = site(tr) if tr is not None else site(pf)
+    R.check(any(k == 'Some' for _, _, k in seen_rows), rule, 'trailers():server-first:exists', where, 'a path returning Some(trailers) exists')
+    R.check(any(ro == 'Client' and k == 'None' for ro, _, k in seen_rows), rule, 'trailers():client:exists', where, 'client role -> None')
+    if tr is not None:
+        R.check(any(en is True and k == 'None' for _, en, k in seen_rows), rule, 'trailers():server-ended:exists', where, 'already ended -> None')
+    return tr
